@@ -132,6 +132,9 @@ class ModelsWorld(World):
             return False
         return True
 
+    def unjudged(self, step):
+        return step["op"] == "load" and self.disk.get(step["args"]["path"]) in (None, "torn")
+
     def retire(self, handles):
         for h in handles:
             self.live.pop(h, None)
